@@ -14,6 +14,7 @@ import threading
 import time
 from pathlib import Path
 
+from vlib import c03_bx as BX
 from vlib import c03_export as X
 from vlib import coqrun
 from vlib.c03_lib import (bounds, call_word, compare_rows, ir_snippet_code, run_code, type_grid, tyname,
@@ -31,7 +32,9 @@ META = {
             "convert() between all word-sized types (8618 allowed pairs; flags with every member count 1..256), for "
             "convert() from Bytes[N]/String[N] (N = 1..32, every length and every content of the padding), for the range "
             "clamps of all word types, for the unchecked operations (unsafe_*, pow_mod256, shifts, bit ops) and for the "
-            "builtins shift(), abs(), ~, uint256_addmod/mulmod (variable and literal operands) is proved in Coq, for all "
+            "builtins shift(), abs(), ~, uint256_addmod/mulmod (variable and literal operands), as_wei_value() (all 65 numeric "
+            "types x all 17 unit names: exactly value*denom, decimals floor(d*denom/10**10), when value >= 0 and the result is "
+            "< 2**256, revert otherwise), floor(), ceil(), min()/max() (all numeric types) is proved in Coq, for all "
             "operand values, to return the exact mathematical result when representable and to revert otherwise "
             "(unchecked ops: to wrap exactly modulo 2**bits). convert() of literal sources is tied to the same "
             "specification on a boundary family of literals typed by the real front end. The templates are re-exported from /repo on every run by calling the real "
@@ -45,7 +48,10 @@ META = {
                   "(theorems parametric in the literal); pow bounds are re-checked by the kernel for the exported literals "
                   "and rely on C20's largest_power/base theorems otherwise. Bytestring sources are modelled as a pointer "
                   "into an abstract read-only memory (mload); literal-source conversions are a finite family (quick: a "
-                  "seeded sample). The optimiser passes that rewrite/delete checks are covered by the glue differential only.",
+                  "seeded sample). The optimiser passes that rewrite/delete checks are covered by the glue differential only. "
+                  "as_wei_value/floor/ceil/min/max: operand in a variable (non-literal; literal arguments are folded: C17); the unit "
+                  "table (name -> denomination) is part of the specification (BxModel.v wei_units). math.isqrt / math.sqrt "
+                  "(stdlib Vyper source) and epsilon(): differential only, no theorem.",
     "technique": "Coq proof over exported code-generator templates (O-tie) + differential correspondence",
 }
 
@@ -1579,7 +1585,8 @@ def generate_and_build(ctx):
 
     return dict(gen_err=gen_err, ltempl=ltempl, vtempl=vtempl, lconv=lconv, vconv=vconv, vextra=vextra, lpow=lpow, vpow=vpow,
                 luns=luns, vuns=vuns, clampfam=clampfam, b0=b0, bl=bl, bv=bv, bcl=bcl, bcv=bcv, bpl=bpl, bpv=bpv,
-                bul=bul, buv=buv, bclamp=bclamp, bfam=bfam, bbconv=bbconv, bltfam=bltfam, bblt=bblt, litfam=litfam, blitc=blitc)
+                bul=bul, buv=buv, bclamp=bclamp, bfam=bfam, bbconv=bbconv, bltfam=bltfam, bblt=bblt, litfam=litfam, blitc=blitc,
+                bx=BX.generate_and_build(ctx, STATIC, b0))    # as_wei_value / floor / ceil / min / max (vlib/c03_bx.py)
 
 
 def prebuild(ctx):
@@ -2000,9 +2007,10 @@ def run(ctx):
     # order below, so the report does not depend on scheduling
     phases = [("templates", ph_templates), ("pow", ph_pow), ("unchecked", ph_unchecked), ("clamps", ph_clamps),
               ("bytesconv", ph_bytesconv), ("builtins", ph_builtins), ("convert", ph_convert), ("glue", glue_part(0))]
+    phases.append(("bx", BX.phase(g["bx"], quick_glue_configs(), configs("quick"))))
     if ctx.tier != "quick":
         phases += [("glue1", glue_part(1)), ("glue2", glue_part(2))]
-    rets = run_phases(ctx, phases, order=("glue", "glue1", "glue2", "unchecked", "bytesconv", "convert", "builtins", "templates", "pow",
+    rets = run_phases(ctx, phases, order=("glue", "glue1", "glue2", "unchecked", "bytesconv", "convert", "builtins", "bx", "templates", "pow",
                                           "clamps"))
     found = any(r[0] for r in rets)
     total = sum(r[1] for r in rets)
@@ -2017,6 +2025,7 @@ def run(ctx):
             ctx.violation("theorem-broken", f"{b.get('failed_lemma')} in {b.get('file')} ({what})",
                           {"theorem": b.get("failed_lemma"), "file": b.get("file"), "coq_output": (b.get("out") or "")[-1500:]})
 
+    BX.verdict(ctx, g["bx"], found)
     ctx.corr["evaluations"] = total
     ctx.corr["distinct_nontrivial"] = total
     ctx.corr["rule"] = ("distinct (template or probe function, configuration, operand tuple) executions on pyrevm; operands from "
